@@ -258,7 +258,11 @@ static void on_asan_death(void) {
   printf("res sanitizer-abort vtime_us=%llu steps=%llu\n", (unsigned long long)vtime_us, (unsigned long long)steps);
   dump_threads();
   fflush(stdout);
+  _exit(1);      /* the report is complete; do not wait for anything else */
 }
+/* called by the sanitizer runtime when it has detected an error, before it prints the report: from
+   here on the interposers must not schedule any more (the report machinery itself reads and writes) */
+void __asan_on_error(void) { sched_on = 0; }
 static void on_alarm(int sig) { (void)sig; finish_fail("hang", "real-time-watchdog"); }
 
 /* ------------------------------------------------------------------------------------------ */
@@ -1170,6 +1174,7 @@ int main(void) {
       dump_trace();
       printf("res cycle n=%d unjoined_before=%d unjoined_after=%d alive_before=%d alive_after=%d maps_before=%ld maps_after=%ld vmsize_kb_before=%ld vmsize_kb_after=%ld\n",
              cyc, unj0, unj1, alive0, alive1, maps0, count_maps(), vm0, vm_kb("VmSize:"));
+      if (alive1 > alive0) dump_threads();
     } else if (!strcmp(tok[0], "settle") && n == 2 && !did_shutdown) {
       /* final phase: wait (virtual time) until every peer that is still connected shows the final
          framebuffer, or the budget is used up */
